@@ -12,12 +12,17 @@
 //   ev     every event [coroutine, step, kind, ready deque as seen at that moment, coroutine mode 0/1]
 //          kind b: step begins  s: the step's awaiter got await_suspend  e: co_await completed
 //               f: body finished (locals destroyed)      r: the nested start() of the step returned
-//               coroutine 0 = native driver (b/e around a call)
+//               coroutine 0 = native driver (b/e around a call; t instead of e: the call was left by an exception;
+//               x / y: the function given to install_queue_and_call / create_suspend_point is being left - logged by the
+//               destructor of one of its locals, i.e. on return as well as during unwinding; h: native code holds the
+//               suspend point returned by create_suspend_point)
 //   final  deque / coroutine-mode flag after the native driver finished, resumptions and state per
 //          coroutine ("new" never created, "done" finished and frame destroyed exactly once)
 //   errors checks made on the C++ side only (two coroutines running at once, frame destroyed twice,
 //          script overrun ...): expected to be empty
-// header "swap": co_await pause() is replaced by an awaiter built on coro_queue::swap_coroutine.
+// header "swap": co_await pause() is replaced by an awaiter built on coro_queue::swap_coroutine; it also selects (together
+// with the parity of the native step) whether the function given to install_queue_and_call / create_suspend_point
+// returns void or a value (both forms have their own code in the library).
 //
 // The 5th field of an event is the MODE: (1 iff coro_queue::is_active()) + (2 iff the event is logged on the thread
 // pool's worker thread).  Programs with pool steps (po pr pw px) run a real cocls::thread_pool with ONE worker.  The
@@ -34,6 +39,7 @@
 #include <cocls/future.h>
 #include <cocls/mutex.h>
 #include <cocls/queue.h>
+#include <cocls/self.h>
 #include "replay_common.h"
 
 #include <cocls/thread_pool.h>
@@ -235,6 +241,19 @@ struct SwapYield {
     void await_resume() {}
 };
 
+// the exception scripted code throws (step rx: out of a coroutine body; ix cx ct: out of the function given to
+// install_queue_and_call / create_suspend_point)
+struct ScriptExc {};
+
+// local of the function given to install_queue_and_call / create_suspend_point: logs when the function is left
+struct ExitLog {
+    World &w;
+    int c;
+    int i;
+    bool collects;   // create_suspend_point: on normal return the entries are withdrawn from the deque afterwards
+    ~ExitLog() { w.log(c, i, (collects && std::uncaught_exceptions() == 0) ? "y" : "x"); }
+};
+
 struct Fin {
     World &w;
     int me;
@@ -270,7 +289,8 @@ cocls::async<void> body(World &w, int me, Tok tok) {
             { Obs<SPb> o(w, me, i, [&] { return w.prom[a](); }); co_await o; }
             w.log(me, i, "e");
         } else if (k == "aw") {
-            { Obs<FutAw> o(w, me, i, [&] { return w.fut[a]->operator co_await(); }); co_await o; }
+            // (the future may carry the exception of a bound coroutine that left its body by `rx`)
+            { Obs<FutAw> o(w, me, i, [&] { return w.fut[a]->operator co_await(); }); try { co_await o; } catch (const ScriptExc &) {} }
             w.log(me, i, "e");
         } else if (k == "sd") {
             int child;
@@ -284,7 +304,7 @@ cocls::async<void> body(World &w, int me, Tok tok) {
         } else if (k == "sc") {
             int child;
             cocls::async<void> c = w.make(child);
-            { Obs<cocls::async<void>::co_awaiter> o(w, me, i, [&] { return c.operator co_await(); }); co_await o; }
+            { Obs<cocls::async<void>::co_awaiter> o(w, me, i, [&] { return c.operator co_await(); }); try { co_await o; } catch (const ScriptExc &) {} }
             w.log(me, i, "e");
         } else if (k == "st") {
             int child;
@@ -292,7 +312,7 @@ cocls::async<void> body(World &w, int me, Tok tok) {
             w.incall[me] = 1;
             cocls::future<void> f = c.start();   // coroutine mode: the child is resumed nested, right here
             w.log(me, i, "r");
-            { Obs<FutAw> o(w, me, i, [&] { return f.operator co_await(); }); co_await o; }
+            { Obs<FutAw> o(w, me, i, [&] { return f.operator co_await(); }); try { co_await o; } catch (const ScriptExc &) {} }
             w.log(me, i, "e");
         } else if (k == "bd") {
             int child;
@@ -335,13 +355,13 @@ cocls::async<void> body(World &w, int me, Tok tok) {
         } else if (k == "pr") {
             w.pool->resume(w.prom[a]());
         } else if (k == "pw") {
-            { Obs<decltype((*w.pool)(*w.fut[a]))> o(w, me, i, [&] { return (*w.pool)(*w.fut[a]); }); co_await o; }
+            { Obs<decltype((*w.pool)(*w.fut[a]))> o(w, me, i, [&] { return (*w.pool)(*w.fut[a]); }); try { co_await o; } catch (const ScriptExc &) {} }
             w.log(me, i, "e");
         } else if (k == "px") {
             int child;
             cocls::async<void> c = w.make(child);
             cocls::future<void> f = w.pool->run(c);
-            { Obs<FutAw> o(w, me, i, [&] { return f.operator co_await(); }); co_await o; }
+            { Obs<FutAw> o(w, me, i, [&] { return f.operator co_await(); }); try { co_await o; } catch (const ScriptExc &) {} }
             w.log(me, i, "e");
         } else if (k == "ha") {
             acc = w.prom[a]();
@@ -356,8 +376,30 @@ cocls::async<void> body(World &w, int me, Tok tok) {
             w.log(me, i, "e");
         } else if (k == "hf") {
             acc.clear();
+        } else if (k == "hs") {
+            // the documented `suspend_point<void> my_handle = co_await self();`, merged into the reused variable
+            acc = co_await cocls::self();
+        } else if (k == "hy") {
+            { SPv mine = co_await cocls::self(); }   // discarded: queued (coroutine mode)
+            { Obs<std::suspend_always> o(w, me, i, [] { return std::suspend_always{}; }); co_await o; }
+            w.log(me, i, "e");
+        } else if (k == "cd") {
+            cocls::coro_queue::create_suspend_point([&] { w.prom[a](); });
+        } else if (k == "ca") {
+            { Obs<SPv> o(w, me, i, [&] { return cocls::coro_queue::create_suspend_point([&] { w.prom[a](); }); }); co_await o; }
+            w.log(me, i, "e");
+        } else if (k == "ct") {
+            bool caught = false;
+            try {
+                cocls::coro_queue::create_suspend_point([&] { w.prom[a](); throw ScriptExc{}; });
+            } catch (const ScriptExc &) {
+                caught = true;
+            }
+            if (!caught) w.err("the exception of the function given to create_suspend_point did not reach the caller");
         } else if (k == "re") {
             co_return;
+        } else if (k == "rx") {
+            throw ScriptExc{};
         } else {
             w.err("unknown step kind " + k);
             co_return;
@@ -398,6 +440,7 @@ static void native_driver(World &w) {
             });
         }
         w.log(0, i, "b");
+        const char *left = "e";
         if (s.k == "sd") {
             int child;
             cocls::async<void> c = w.make(child);
@@ -414,6 +457,45 @@ static void native_driver(World &w) {
             }
         } else if (s.k == "qd") {
             w.q.push();
+        } else if (s.k == "ir" || s.k == "ix" || s.k == "cr" || s.k == "cx") {
+            // user-level entry into coroutine mode: the function makes coroutines ready (their suspend point is discarded
+            // under the installed queue: queued) and returns or throws
+            const bool throws = s.k[1] == 'x';
+            const bool create = s.k[0] == 'c';
+            const bool valued = ((i + (w.use_swap ? 1 : 0)) % 2) != 0;
+            auto work = [&] {
+                if (s.a == 0) {
+                    int child;
+                    cocls::async<void> c = w.make(child);
+                    c.detach();
+                } else {
+                    w.prom[s.a]();
+                }
+                if (throws) throw ScriptExc{};
+            };
+            auto fn_void = [&]() -> void { ExitLog xl{w, 0, i, create}; work(); };
+            auto fn_int = [&]() -> int { ExitLog xl{w, 0, i, create}; work(); return 42; };
+            bool caught = false;
+            try {
+                if (!create) {
+                    if (valued) {
+                        if (cocls::coro_queue::install_queue_and_call(fn_int) != 42) w.err("install_queue_and_call lost the result of the function");
+                    } else {
+                        cocls::coro_queue::install_queue_and_call(fn_void);
+                    }
+                } else if (valued) {
+                    cocls::suspend_point<int> sp = cocls::coro_queue::create_suspend_point(fn_int);
+                    w.log(0, i, "h");
+                    if (int(sp) != 42) w.err("create_suspend_point lost the result of the function");
+                } else {
+                    cocls::suspend_point<void> sp = cocls::coro_queue::create_suspend_point(fn_void);
+                    w.log(0, i, "h");
+                }
+            } catch (const ScriptExc &) {
+                caught = true;
+            }
+            if (caught != throws) w.err(throws ? "the exception of the function did not reach the caller" : "unexpected exception");
+            if (caught) left = "t";
         } else {
             w.err("unknown native step kind " + s.k);
         }
@@ -430,7 +512,7 @@ static void native_driver(World &w) {
             std::unique_lock lk(w.gate_mx);
             w.gate_cv.wait(lk, [&w] { return w.pool_dry; });
         }
-        w.log(0, i, "e");
+        w.log(0, i, left);
     }
 }
 
@@ -456,7 +538,8 @@ static void run_scenario(const Scenario &sc, Reporter &rep) {
             d.k = st.l[0].s;
             d.a = (int) st.l[1].i;
             if (d.k == "rd" || d.k == "ra" || d.k == "aw" || d.k == "bd" || d.k == "ba" || d.k == "pr" || d.k == "pw" ||
-                d.k == "ha" || d.k == "hm") maxk = std::max(maxk, d.a);
+                d.k == "ha" || d.k == "hm" || d.k == "cd" || d.k == "ca" || d.k == "ct" ||
+                d.k == "ir" || d.k == "ix" || d.k == "cr" || d.k == "cx") maxk = std::max(maxk, d.a);
             if (d.k == "po" || d.k == "pr" || d.k == "pw" || d.k == "px") use_pool = true;   // (artefacts without the flag)
             w->script[c].push_back(d);
             jl.push(J::list().push(d.k).push(d.a));
